@@ -1208,6 +1208,47 @@ def mc_instances(name, tier):
                         "arrS": [[[1, 2]]], "batchS": [[[1, 2]]], "svcS": [[[1, 4]]], "route": [tm([[0]])],
                         "T": 9 if not big else 12})
         return [(fam, 5 if not big else 6)]
+    if name == "overblock":
+        fam = []
+        for nums, ends in ([[1, 1], [2, 4]], [[1, 2], [2, 5]]):
+            for q2 in (0, 1):
+                fam.append({"N": 2, "K": 1,
+                            "nodes": [{"kind": "sched", "c": 0, "sched": {"nums": nums, "ends": ends, "pre": 0, "off": 0}},
+                                      {"c": 1, "qcap": q2}],
+                            "arrS": [[[1, 2]], [[]]], "svcS": [[[2, 3]], [[3, 4]]],
+                            "route": [tm([[0, 4], [0, 0]])], "T": 8 if not big else 11})
+        fam.append({"N": 2, "K": 1,
+                    "nodes": [{"kind": "sched", "c": 0, "sched": {"nums": [1, 1], "ends": [2, 4], "pre": 0, "off": 0}},
+                              {"kind": "sched", "c": 0, "qcap": 0, "sched": {"nums": [1, 1], "ends": [3, 6], "pre": 0, "off": 0}}],
+                    "arrS": [[[1, 2]], [[]]], "svcS": [[[2, 3]], [[3, 4]]],
+                    "route": [tm([[0, 4], [0, 0]])], "T": 8 if not big else 11})
+        return [(fam, 4 if not big else 5)]
+    if name == "ppblock":
+        fam = []
+        for pp in [1, 2, 3]:
+            for c1 in (1, 2):
+                fam.append({"N": 2, "K": 2, "prio": [0, 1], "nodes": [{"c": c1, "pp": pp}, {"c": 1, "qcap": 0}],
+                            "arrS": [[[3], [1, 2]], [[], []]], "svcS": [[[1, 2], [2]], [[4], [3, 4]]],
+                            "route": [tm([[0, 4], [0, 0]]), tm([[0, 4], [0, 0]])], "T": 10 if not big else 12})
+        return [(fam, 5 if not big else 6)]
+    if name == "slotblock":
+        fam = []
+        for cap in (False, True):
+            for q2 in (0, 1):
+                fam.append({"N": 2, "K": 1,
+                            "nodes": [{"kind": "slot", "c": 0, "slot": {"slots": [2, 3], "sizes": [2, 1], "cap": cap, "pre": 0, "off": 0}},
+                                      {"c": 1, "qcap": q2}],
+                            "arrS": [[[1, 2]], [[]]], "svcS": [[[1, 2]], [[3, 5]]],
+                            "route": [tm([[0, 4], [0, 0]])], "T": 8 if not big else 11})
+        return [(fam, 4 if not big else 5)]
+    if name == "slotren":
+        fam = []
+        for cap, pre in [(False, 0), (True, 0), (True, 1), (True, 2)]:
+            fam.append({"N": 1, "K": 1, "nodes": [{"kind": "slot", "c": 0,
+                        "slot": {"slots": [2, 3], "sizes": [2, 1], "cap": cap, "pre": pre, "off": 0}}],
+                        "arrS": [[[1, 2]]], "svcS": [[[2, 4]]], "patS": [[[1, 3]]], "route": [tm([[0]])],
+                        "T": 8 if not big else 10})
+        return [(fam, 4 if not big else 5)]
     if name == "ccw":
         fam = []
         for prio, pp in [([0, 0], 0), ([1, 0], 0), ([1, 0], 1), ([1, 0], 3)]:
